@@ -79,6 +79,9 @@ type layout struct {
 	align uint64
 	desc  string
 	secs  []secSpec // executable sections, when the object has a section table
+	// aliased: the [off, off+memsz) range of a data segment with .bss runs over the file range of the
+	// code: which segment a file offset belongs to cannot be told, an error is the documented answer
+	aliased bool
 }
 
 // genLayout produces PT_LOAD segments under linker constraints: sorted by vaddr,
@@ -86,9 +89,6 @@ type layout struct {
 // separate pages ("separate-code") or packed so that neighbours share a file page, optional 2 MiB
 // alignment.
 func genLayout(r *rand.Rand) layout {
-	if r.Intn(5) == 0 {
-		return genDataFirst(r)
-	}
 	l := genPlain(r)
 	if l.typ == elf.ET_DYN && r.Intn(3) == 0 {
 		x := l.phs[l.xseg]
@@ -104,7 +104,7 @@ func genLayout(r *rand.Rand) layout {
 // [off, off+memsz) of the data segment runs over theirs. Samples lie in either executable segment;
 // the object has a section table.
 func genDataFirst(r *rand.Rand) layout {
-	l := layout{typ: elf.ET_DYN, align: pg}
+	l := layout{typ: elf.ET_DYN, align: pg, aliased: true}
 	off, vaddr := uint64(0), uint64(0)
 	add := func(flags uint32, fsz, msz uint64) {
 		l.phs = append(l.phs, elf.Prog64{Type: uint32(elf.PT_LOAD), Flags: flags, Off: off, Vaddr: vaddr, Paddr: vaddr, Filesz: fsz, Memsz: msz, Align: pg})
@@ -208,7 +208,13 @@ func (l layout) sharedPage(i int) bool {
 
 func runSynth(c *harness.Ctx) harness.Result {
 	r := c.Rng
-	l := genLayout(r)
+	var l layout
+	if r.Intn(5) == 0 {
+		l = genDataFirst(r)
+		c.Stat("data_first_layouts", 1)
+	} else {
+		l = genLayout(r)
+	}
 	path := filepath.Join(c.Tmp, "syn.so")
 	if err := writeELF(path, l.typ, l.phs, l.secs...); err != nil {
 		return harness.Result{Verdict: harness.Inconclusive, Detail: err.Error()}
@@ -242,7 +248,7 @@ func runSynth(c *harness.Ctx) harness.Result {
 		maps = []mp{{mstart, mid, moff}, {mid, mlimit, moff + (mid - mstart)}}
 		split = true
 	}
-	shared := l.sharedPage(l.xseg)
+	shared := l.sharedPage(l.xseg) || l.aliased
 	// adjacent mappings of one file with consecutive offsets are reported (and merged by pprof's
 	// own parsers) as one: the tail of the executable segment's mapping, from any of its pages on,
 	// together with the mapping of the following segment
